@@ -64,6 +64,15 @@ Definition gap (l : list Z) : Z := maxl l - minl l.
 (* largest part id of a partition array (`part_ids.par_iter().max().unwrap_or(&0)`) *)
 Definition maxN (p : list N) : N := fold_right N.max 0%N p.
 
+Fixpoint list_Zeqb (a b : list Z) : bool :=
+  match a, b with
+  | [], [] => true
+  | x :: a', y :: b' => (x =? y) && list_Zeqb a' b'
+  | _, _ => false
+  end.
+(* same multiset of numbers *)
+Definition same_multiset (a b : list Z) : bool := list_Zeqb (sortZ_desc a) (sortZ_desc b).
+
 (* every id is below the part count *)
 Definition ids_below (k : nat) (p : list N) : bool := forallb (fun x => (x <? N.of_nat k)%N) p.
 
